@@ -2,7 +2,7 @@
 # tools/try_seed.sh <Cxx> [prop-to-check ...]  - confirm a sub-agent's seeded change and run the checks against it.
 # Input: /tmp/seed/<Cxx>/_out/{patch.diff,demo.py,meta.json}.  Output: /verif/seeded/<Cxx>/ (+ result.txt).
 ID="$1"; shift
-PROPS="${*:-$ID}"
+PROPS="${*:-$(echo "$ID" | cut -c1-3)}"
 HERE="$(cd "$(dirname "$0")/.." && pwd)"
 SRC="/tmp/seed/$ID/_out"
 DST="$HERE/seeded/$ID"
